@@ -18,6 +18,9 @@ func c16Spec(rng *rand.Rand, i int) (*SessSpec, string) {
 	o := &HistOpts{NumVB: sp.NumVB, PReserved: 0.12, PSystem: 0.06, PSeqAdv: 0.15, MaxItems: 5}
 	ctr := 0
 	kind := []string{"scrape", "scrape", "lowhigh", "reopen", "closed", "rebalance"}[i%6]
+	if i%12 == 1 {
+		kind = "open-end"
+	}
 	for vb := 0; vb < sp.NumVB; vb++ {
 		for s := 0; s < 1+rng.Intn(2); s++ {
 			sp.Backlog[vb] = append(sp.Backlog[vb], genSnap(rng, o, &ctr))
@@ -37,6 +40,12 @@ func c16Spec(rng *rand.Rand, i int) (*SessSpec, string) {
 	}
 	sp.Steps = append(sp.Steps, Step{Op: "barrier"}, Step{Op: "metrics"})
 	switch kind {
+	case "open-end":
+		// a vBucket stream ends for good while the streams of the assignment are still being opened (the last stream request is
+		// unanswered): the active-stream gauge must read assigned - 1 afterwards
+		sp.ReqHold = map[int]int{sp.NumVB - 1: 1}
+		sp.StartSteps = []Step{{Op: "waithold", N: 1}, {Op: "waitopen", VB: 0}, {Op: "end", VB: 0, St: []uint32{0, 7, 6}[rng.Intn(3)]}, {Op: "sleep", Ms: 40}, {Op: "releasereq"}}
+		sp.Steps = append(sp.Steps, Step{Op: "append", VB: 1, Items: genSnap(rng, o, &ctr)}, Step{Op: "barrier"}, Step{Op: "metrics"})
 	case "scrape":
 		for r := 0; r < 1+rng.Intn(3); r++ {
 			round()
